@@ -15,6 +15,7 @@ mod c13;
 mod c14;
 mod fi_fields;
 mod legacy_fields;
+mod c16;
 
 use std::io::{BufWriter, Write};
 
@@ -43,6 +44,8 @@ fn main() {
                 "C10" => c10::gen(tier, seed, &mut out),
                 "C13" => c13::gen(tier, seed, &mut out),
                 "C14" => c14::gen(tier, seed, &mut out),
+                "C16" => c16::gen(tier, seed, &mut out),
+                "C16path" => c16::gen_path(tier, seed, &mut out),
                 _ => {
                     eprintln!("unknown property {}", prop);
                     std::process::exit(2);
@@ -115,6 +118,12 @@ fn replay_one(toks: &[&str]) -> String {
         "C10" => c10::observe(toks),
         "C13" => c13::replay(&toks[1..]),
         "C14" => c14::replay(&toks[1..]),
+        "C16" => c16::observe(toks),
+        "C16path" => c16::observe_path(&String::from_utf8(common::unhex(toks[1])).unwrap()),
+        "C16pp" => c16::observe_pair(
+            &String::from_utf8(common::unhex(toks[1])).unwrap(),
+            &String::from_utf8(common::unhex(toks[2])).unwrap(),
+        ),
         other => format!("unknown-model {}", other),
     }
 }
